@@ -19,7 +19,7 @@ RULE = ("random configurations: overall degree function from gcmpy's own distrib
 ASSUMPTIONS = ["probs[0] > 0 (otherwise odd degrees have no admissible split of positive weight and the law is undefined)",
                "the upper end of the degree range may be inclusive or exclusive; collapse to fewer degrees is a violation",
                "floats are converted exactly to rationals; comparison at 1e-9 absolute on probabilities"]
-HEADLINE = ["configs", "split", "delta", "keys_checked", "degrees_checked", "multi_split_degrees", "target_inside", "target_outside", "dispatcher_path", "zero_prob_component"]
+HEADLINE = ["configs", "split", "delta", "keys_checked", "degrees_checked", "multi_split_degrees", "target_inside", "target_outside", "dispatcher_path", "zero_prob_component", "recreate_checks"]
 REQUIRED = {t: {"split": 20, "delta": 20, "multi_split_degrees": 50, "target_inside": 5, "target_outside": 2,
                 "dispatcher_path": 20, "zero_prob_component": 3} for t in ("quick", "thorough")}
 TOL = 1e-9
@@ -83,7 +83,8 @@ def build_config(rng):
     if loader == "delta":
         target = rng.choice([lo, hi - 1, hi, rng.randint(lo, hi), lo - 1, hi + 2, rng.randint(lo, hi)])
     path = rng.choice(["direct", "dispatcher"])
-    return {"T": T, "probs": probs, "lo": lo, "hi": hi, "fkind": fkind, "fpar": fpar, "loader": loader,
+    recreate = rng.choice([0, 0, 1, 2])
+    return {"recreate": recreate, "T": T, "probs": probs, "lo": lo, "hi": hi, "fkind": fkind, "fpar": fpar, "loader": loader,
             "target": target, "path": path}
 
 
@@ -132,6 +133,16 @@ def check_config(res, cfg):
             res.violate("dispatcher-returned-wrong-loader", got=type(obj).__name__, want=cls.__name__, cfg=cfg)
             return False
     jdd = sut("read .jdd", lambda: obj.jdd)
+    if isinstance(jdd, dict) and cfg.get("recreate"):
+        # history on one loader: building the table again must give the same table
+        first = dict(jdd)
+        for _ in range(cfg["recreate"]):
+            sut("create_jdd (again)", obj.create_jdd)
+            res.count("recreate_checks")
+        jdd = sut("read .jdd", lambda: obj.jdd)
+        if not (isinstance(jdd, dict) and set(jdd) == set(first) and all(abs(jdd[k] - first[k]) <= 1e-12 for k in first)):
+            res.violate("building-the-table-again-changed-the-distribution", first=repr(sorted(first.items()))[:300], again=repr(jdd)[:300], cfg=cfg)
+            return False
     if not isinstance(jdd, dict) or not jdd:
         res.violate("jdd-not-a-nonempty-dict", got=repr(jdd)[:200], cfg=cfg)
         return False
